@@ -1,7 +1,19 @@
 """C12 - code generation is total, deterministic and yields compilable bindings."""
+import os
+
+# Root-module jobs (the same checks driving the root generator through gendrv1 with the SpecV1 rendering). Appended after
+# the v2 jobs so that those keep their derived seeds.
+def _v1_jobs(J):
+    return [
+        J("gen-v1", "v1", "genprops", "^TestC12(Generate|CheckedIn|KnownFindings)", checks=(120, 6000), shards=(8, 16), prepare="prepare_genprops",
+          extra_pkgs=["gendrv"], timeout=(1500, 3300)),
+        J("stress-v1", "v1", "genprops", "^TestC12Stress", checks=(60, 3000), shards=(8, 16), prepare="prepare_genprops",
+          extra_pkgs=["gendrv"], timeout=(1500, 3300)),
+    ]
 
 
 def register(prop, J):
+    PENDING_V1 = _v1_jobs(J)
     prop("C12",
          rule="rapid-generated manifests (1-10 named types over 5 namespaces incl. an 'internal' one: records with every field type "
               "constructor / optional / default / includes, enums, fixed, typerefs, unions incl. nullable and single-member, complex "
@@ -13,7 +25,7 @@ def register(prop, J):
                extra_pkgs=["gendrv"], timeout=(1500, 3300)),
              J("stress-v2", "v2", "genprops", "^TestC12Stress", checks=(60, 3000), shards=(8, 16), prepare="prepare_genprops",
                extra_pkgs=["gendrv"], timeout=(1500, 3300)),
-         ],
+         ] + (PENDING_V1 if os.environ.get("VERIF_PENDING_V1") else []),
          level_text="generated schema sets through the working tree's generator: exit status (no panic), byte-identical output of three "
                     "fresh processes, and the Go compiler / type checker as the oracle for the emitted bindings; the checked-in "
                     "bindings are regenerated from the checked-in manifest and compared file by file (bytes, then AST without comments)",
